@@ -359,7 +359,7 @@ def _check_operator_eq_range(line: str, platform: str, port_range: bool) -> None
     operators = [ace_o.srcport.operator, ace_o.dstport.operator]
     operators = [s for s in operators if s]
 
-    expected = ["eq", "neq", "range"]
+    expected = ["eq", "neq"]  # a "range" template cannot carry a list of ports
     for operator in operators:
         if operator not in expected:
             raise ValueError(f"invalid {operator=}, {expected=}")
